@@ -4,6 +4,7 @@
     Per-property tables live in DriverCxx.v ([dispatch_cxx : Z -> val -> option val], None for
     an id they do not own) and are chained in [dispatch] below. *)
 From SE Require Import Base Codecs Fat Stream Transcode Cue Names AkaiImage DriverBase.
+From SE Require DriverC20.
 
 Definition dispatch_core (id : Z) (a : val) : option val :=
   Some (
@@ -78,7 +79,7 @@ Definition dispatch_core (id : Z) (a : val) : option val :=
 
 
 Definition owns_core (id : Z) : bool := id <? 700.
-Definition exts : list (Z -> val -> option val) := [].
+Definition exts : list (Z -> val -> option val) := [DriverC20.dispatch_c20].
 Fixpoint first_some (l : list (Z -> val -> option val)) (id : Z) (a : val) : val :=
   match l with
   | [] => vbad
